@@ -72,8 +72,24 @@ def nonempty_fact(f, key):
 def unassigned_fact(f, key):
     """fact saying the reader's table has no entry for the first byte"""
     def is_lookup(t):
+        if t[0] == "phi":
+            # a helper that looks the first byte up and answers None for an empty input
+            # (`let tag = *bytes.first()?; self.decode.get(tag)`): None means unassigned or empty,
+            # either of which admits the literal
+            return any(is_lookup(x) for x in t[1]) and all(is_lookup(x) or none_for_empty(x) for x in t[1])
         return t[0] == "call" and t[1] == ("BytesMap", "get") and t[2] and \
             t[2][0] == ("place", key, ("arg", 1), ("f:decode",)) and mentions_first_byte(t[2][1], key)
+
+    def none_for_empty(t):
+        if t[0] == "agg" and t[1] == "Option::None":
+            return True
+        if t[0] == "call" and t[1] == ("FromResidual", "from_residual") and t[2]:
+            x = t[2][0]
+            while x[0] == "call" and x[1] in (("Try", "branch"), ("From", "from")) and x[2]:
+                x = x[2][0]
+            return x[0] == "call" and x[1] in (("slice", "first"), ("slice", "get")) and bool(x[2]) and \
+                x[2][0] == ("place", key, ("arg", 2), ())
+        return False
     if f[0] == "truthy" and f[1][0] == "call" and f[1][1] == ("Option", "is_none") and is_lookup(f[1][2][0]):
         return f[2] is True
     if f[0] == "truthy" and f[1][0] == "call" and f[1][1] == ("Option", "is_some") and is_lookup(f[1][2][0]):
@@ -93,6 +109,7 @@ def r_literal_guard(F, R):
     param = ("place", b.key, ("arg", 2), ())
     lits = []
     hits = []
+    merged = {}  # push block -> blocks in which the caller's bytes are selected as the value to store
     for (bi, t) in b.calls():
         if callee_tag(t.get("callee")) == ("Push", "push") and len(t["args"]) == 2:
             a = operand_tree(ctx, t["args"][1])
@@ -100,6 +117,13 @@ def r_literal_guard(F, R):
                 lits.append((bi, t))
             else:
                 hits.append((bi, t, a))
+                # one store shared by the hit and the literal case (`let encoded = match .. {
+                # Some(tag) => from_ref(tag), None => bytes }; output.push(encoded)`): the literal
+                # alternative is judged where the caller's bytes are selected
+                sel = literal_selection_blocks(ctx, t["args"][1], (("arg", 2), ()))
+                if sel:
+                    lits.append((bi, t))
+                    merged[bi] = sel
     R.floor("R-GUARD", "literal store sites in encode", len(lits), 1)
     good = set()
     for bi in b.live_blocks():
@@ -114,7 +138,7 @@ def r_literal_guard(F, R):
                 good_edges.add((s_, tgt))
     for (bi, t) in lits:
         reach = reachable_avoiding(b, 0, good, good_edges)
-        ok = bi not in reach
+        ok = bi not in reach if bi not in merged else not (merged[bi] & reach)
         # the "assigned" edge of the lookup must diverge: no path from the lookup's other edge to the store
         R.check("R-GUARD", b.label(), ok,
                 construct="literal store not guarded by reader's tag table",
@@ -136,6 +160,40 @@ def r_literal_guard(F, R):
     else:
         R.check("R-CODEC", b.label(), all(verdicts), construct="dictionary hit stores exactly the one tag byte",
                 where=b.where(), detail="hit stores: %s" % [show(a)[:100] for (_, _, a) in hits])
+
+
+def literal_selection_blocks(ctx, op, origin, _seen=None):
+    """blocks holding an assignment that puts exactly `origin` (and nothing else) into a local that
+    flows, possibly together with other values, into operand `op`"""
+    _seen = _seen if _seen is not None else set()
+    out = set()
+    if op["k"] not in ("copy", "move") or op["place"]["p"]:
+        return out
+    l = op["place"]["l"]
+    if l in _seen:
+        return out
+    _seen.add(l)
+    if origin not in ctx.org.operand(op) or len(ctx.org.operand(op)) < 2:
+        return out
+    body = ctx.body
+    for (dpath, kind, data, through_deref) in ctx.org.defs.get(l, ()):
+        if kind != "stmt" or dpath:
+            continue
+        (bi, si) = data
+        st = body.blocks[bi]["stmts"][si]
+        rv = st["rv"]
+        if rv["k"] in ("use", "cast"):
+            src = rv["op"]
+        elif rv["k"] == "ref" and [e["k"] for e in rv["place"]["p"]] == ["deref"]:
+            src = {"k": "copy", "place": {"l": rv["place"]["l"], "p": []}}  # a reborrow `&*x`
+        else:
+            continue
+        o = ctx.org.operand(src) if src["k"] != "const" else set()
+        if o == {origin}:
+            out.add(bi)
+        elif origin in o:
+            out |= literal_selection_blocks(ctx, src, origin, _seen)
+    return out
 
 
 def r_emptiness(F, R):
@@ -560,3 +618,55 @@ def r_dedup(F, R):
                     ("" if ok else "; the first parameter is the element dedup_by removes, so what is "
                      "accumulated into it is dropped"))
     R.info("R-DEDUP: %d dedup_by closures analysed" % n)
+
+
+# ---------------------------------------------------------------------------------------------
+# R-WEIGHT: the heavy-hitter summary's weighted update adds the caller's count
+
+
+def r_update_weight(F, R):
+    """`MisraGries::update(element, count)` stands for `count` insertions.  Every store of the
+    method that bumps a stored weight in place (`*w = *w + k`) has to take the addend from the
+    count parameter.  Fires only on positive evidence: a self-increment by a literal in a method
+    that was handed a count.  The floor is the site where the count enters the summary."""
+    MG = "impls::codec::misra_gries::MisraGries"
+    bodies = [b for b in F.inherent_methods(MG) if b.nargs >= 3 and
+              any(b.locals[i]["ty"].get("s") == "usize" for i in range(2, b.nargs + 1))]
+    n = 0
+    for b in bodies:
+        ctx = Ctx(b)
+        counts = [("place", b.key, ("arg", i), ()) for i in range(2, b.nargs + 1) if b.locals[i]["ty"].get("s") == "usize"]
+        R.saw(b)
+        enters = False
+        for (bi, t) in b.calls():
+            for a in t["args"][1:]:
+                if any(nd in counts for nd in walk(operand_tree(ctx, a))):
+                    enters = True
+        for bi in b.live_blocks():
+            for st in b.blocks[bi]["stmts"]:
+                if st["k"] != "assign" or not st["place"]["p"]:
+                    continue
+                if not any(e["k"] == "deref" for e in st["place"]["p"]):
+                    continue  # only stores through a reference reach the summary
+                rv = st["rv"]
+                if rv["k"] != "use":
+                    continue
+                val = operand_tree(ctx, rv["op"])
+                if any(nd in counts for nd in walk(val)):
+                    enters = True
+                    continue
+                adds = [nd for nd in walk(val) if (nd[0] == "bin" and nd[1] == "Add") or
+                        (nd[0] == "call" and nd[1][1] in ("saturating_add", "wrapping_add", "checked_add"))]
+                for nd in adds:
+                    ops = nd[2:4] if nd[0] == "bin" else nd[2]
+                    consts = [o for o in ops if o[0] == "const"]
+                    if len(ops) == 2 and len(consts) == 1 and str(consts[0][1]) not in ("0",):
+                        n += 1
+                        R.check("R-WEIGHT", b.label(), False,
+                                construct="an in-place weight increment adds the caller's count",
+                                where="%s:%s" % (b.file, st.get("line", b.line)),
+                                detail="a stored weight is bumped by the literal %s although the method was handed a count" % (consts[0][1],))
+        n += 1
+        R.check("R-WEIGHT", b.label(), enters, construct="the count parameter enters the summary",
+                where=b.where(), detail="count flows into a store or call on the summary: %s" % enters)
+    R.floor("R-WEIGHT", "MisraGries weighted update", n, 1)
